@@ -35,6 +35,7 @@ impl Command for Cap {
 }
 
 const WRAPPERS: [&str; 7] = ["not", "if", "elseif", "while", "alias", "alias1", "eval"];
+const HIST_WRAPPERS: [&'static str; 5] = ["hist:not", "hist:if", "hist:while", "hist:alias", "hist:eval"];
 
 /// mirror of `Reser.Safe` / `firstOK` / `lastOK` (cross-checked against the model on every
 /// case: the D/X flag is part of the compared line; and per value by the fixed `safe` cases)
@@ -72,6 +73,13 @@ fn arg_refs(from: usize, n: usize) -> String {
 }
 
 fn script(wrapper: &str, n: usize) -> String {
+    if let Some(w) = wrapper.strip_prefix("hist:") {
+        // a history in the same run: forty alias / eval invocations whose rebuilt line does not
+        // parse (an unterminated quote) before the direct and the wrapped call — state kept by the
+        // wrappers between invocations must not change what later wrapped calls receive
+        let pre = "hist_bad = set \"\\\"x\"\nalias hist_probe noop_hist p\nhist_r = range 0 40\nfor hist_i in ${hist_r}\n    hist_probe ${hist_bad}\n    eval noop_hist ${hist_bad}\nend\nrelease ${hist_r}\n";
+        return format!("{}{}", pre, script(w, n));
+    }
     let all = arg_refs(0, n);
     let wrapped = match wrapper {
         "not" => format!("not cap{}", all),
@@ -206,7 +214,7 @@ impl Prop for C09Prop {
         "C09"
     }
     fn rule(&self) -> &'static str {
-        "0-4 argument values (adversarial pool: spaces, quotes, backslashes, '#', ${..}, %{..}, CR/LF, tabs and other Unicode white space, '=', multi-byte, empty; half of the cases filtered into the proved-safe class) held in variables a0.. (plus optional x, y), handed to a capture command directly (`cap ${a0} …`, the oracle) and through one of not / if / elseif / while / alias / alias with a stored argument / eval in the real SDK context. Relation (model-free): the wrapped invocation received exactly the direct invocation's arguments. Model comparison on every case: domain flag, what the wrapped call receives (Reser.roundTripFull), what the direct call receives. Fixed cases: every value of length <= 3 (thorough: 4) over the alphabet a x space \" \\ # $ % { } LF TAB = in first and in later argument position through `not`, plus the finding witnesses through every wrapper. Non-trivial = some value is empty or has a non-alphanumeric character; distinct = distinct request."
+        "0-4 argument values (adversarial pool: spaces, quotes, backslashes, '#', ${..}, %{..}, CR/LF, tabs and other Unicode white space, '=', multi-byte, empty; half of the cases filtered into the proved-safe class) held in variables a0.. (plus optional x, y), handed to a capture command directly (`cap ${a0} …`, the oracle) and through one of not / if / elseif / while / alias / alias with a stored argument / eval in the real SDK context. Relation (model-free): the wrapped invocation received exactly the direct invocation's arguments. Model comparison on every case: domain flag, what the wrapped call receives (Reser.roundTripFull), what the direct call receives. Two more streams: (after-history) the same comparison after forty alias / eval invocations whose rebuilt line does not parse, in the same run; (branch) programs in which a user function `p` (body `q = set ${o}`, ended by falling off `end`, a bare `return` or `return ${r}`; o, r from a pool of truthy / falsy words incl. trailing LF / CRLF and blanks) is called directly (`d = p x "y z"`) and as the condition of if / elseif / not / while or inside another function used as condition: the goto-machine model (request c04raw) and the real interpreter run the same text, and the model-free relation demands that the recorded branch is the one the direct call's output determines. Fixed cases: every value of length <= 3 (thorough: 4) over the alphabet a x space \" \\ # $ % { } LF TAB = in first and in later argument position through `not`, plus the finding witnesses through every wrapper. Non-trivial = some value is empty or has a non-alphanumeric character; distinct = distinct request."
     }
     fn budget(&self, tier: Tier) -> usize {
         match tier {
@@ -253,10 +261,19 @@ impl Prop for C09Prop {
                 vars.push((k.to_string(), pools::value(rng)));
             }
         }
+        if rng.chance(1, 4) {
+            return gen_branch_case(rng);
+        }
         let wrapper = WRAPPERS[rng.below(WRAPPERS.len())];
+        if rng.chance(1, 12) {
+            return mk_case(&vars, &vals, HIST_WRAPPERS[rng.below(HIST_WRAPPERS.len())], "after-history");
+        }
         mk_case(&vars, &vals, wrapper, "random")
     }
-    fn run_impl(&self, req: &str, _model: &str) -> String {
+    fn run_impl(&self, req: &str, model: &str) -> String {
+        if req.starts_with("c04raw ") {
+            return crate::props::c04::run_impl_structured(req, model);
+        }
         let (vars, vals, wrapper) = parse_req(req);
         let dom = if in_domain(&vals) { "D" } else { "X" };
         match run_real(&vars, &vals, &wrapper) {
@@ -264,7 +281,10 @@ impl Prop for C09Prop {
             Some((direct, wrapped)) => format!("{} {} {}", dom, enc_recv(&wrapped), enc_recv(&direct)),
         }
     }
-    fn relation(&self, _req: &str, _model: &str, imp: &str) -> Option<bool> {
+    fn relation(&self, req: &str, _model: &str, imp: &str) -> Option<bool> {
+        if req.starts_with("c04raw ") {
+            return branch_relation(imp);
+        }
         let t: Vec<&str> = imp.split(' ').collect();
         if t.len() != 3 {
             return Some(false);
@@ -274,7 +294,7 @@ impl Prop for C09Prop {
     fn known(&self, req: &str, model: &str, imp: &str) -> Option<String> {
         // a recorded class only when the case is outside the proved-safe domain, the input
         // is in the class, AND the code still fails exactly as the model predicts
-        if model != imp {
+        if model != imp || req.starts_with("c04raw ") {
             return None;
         }
         let (_, vals, _) = parse_req(req);
@@ -284,6 +304,9 @@ impl Prop for C09Prop {
         class_of(&vals).map(|s| s.to_string())
     }
     fn outcome_kind(&self, imp: &str) -> String {
+        if imp.starts_with('T') {
+            return "branch-program".to_string();
+        }
         let t: Vec<&str> = imp.split(' ').collect();
         if t.len() != 3 {
             return imp.to_string();
@@ -291,6 +314,9 @@ impl Prop for C09Prop {
         if t[1] == t[2] { "same-arguments".into() } else if t[1] == "nocall" { "not-called".into() } else { "altered-arguments".into() }
     }
     fn shrink(&self, req: &str) -> Vec<String> {
+        if req.starts_with("c04raw ") {
+            return vec![];
+        }
         let (vars, vals, wrapper) = parse_req(req);
         let mut out = vec![];
         for i in 0..vals.len() {
@@ -319,7 +345,120 @@ impl Prop for C09Prop {
         out
     }
     fn describe(&self, req: &str) -> String {
+        if req.starts_with("c04raw ") {
+            return format!("branch taken through a wrapper vs the direct call's output: {}", crate::props::c04::describe_tree(req));
+        }
         let (vars, vals, wrapper) = parse_req(req);
         format!("cap {:?} directly vs through {} (extra vars {:?})", vals, wrapper, vars)
+    }
+}
+
+// ---------------------------------------------------------------------------------------------
+// the branch taken: a predicate's OUTPUT decides, directly and through every wrapper
+// ---------------------------------------------------------------------------------------------
+
+/// values a predicate may yield (truthy / falsy / with line breaks or blanks around a falsy word)
+const OUTS: [&str; 16] = ["true", "false", "0", "1", "no", "", "abc", " ", "FALSE", "No", "0\n", "false\r\n", "\n", "no\n", " 0", "yes\n"];
+
+/// `fn p` whose body runs `q = set ${o}` (so the LAST body command yields `${o}`) and then ends
+/// by falling off its end, by a bare `return`, or by `return ${r}`; the program calls it directly
+/// (`d = p x y`) and through a wrapper, and records the branch taken. The predicate's output
+/// comes from variables read INSIDE the body, its arguments are plain words (so the arguments
+/// survive the wrappers' re-serialisation and only the output handling is exercised). Both the
+/// goto-machine model (request `c04raw`) and the real interpreter run the same text.
+fn gen_branch_case(rng: &mut Rng) -> Case {
+    use crate::props::c04::line;
+    let s = |x: &str| x.to_string();
+    let ending = rng.below(3);
+    let wrapper = rng.below(5);
+    let mut ls: Vec<Vec<String>> = vec![];
+    ls.push(line(None, if rng.chance(1, 2) { "fn" } else { "function" }, &[s("p")]));
+    ls.push(line(Some("q"), "set", &[s("${o}")]));
+    match ending {
+        0 => {}
+        1 => ls.push(line(None, "return", &[])),
+        _ => ls.push(line(None, "return", &[s("${r}")])),
+    }
+    ls.push(line(None, "end", &[]));
+    // direct call: its output is the oracle
+    ls.push(line(Some("d"), "p", &[s("x"), s("y z")]));
+    let call = vec![s("p"), s("x"), s("y z")];
+    match wrapper {
+        0 => {
+            ls.push(line(None, "if", &call));
+            ls.push(line(Some("b"), "set", &[s("then")]));
+            ls.push(line(None, "else", &[]));
+            ls.push(line(Some("b"), "set", &[s("else")]));
+            ls.push(line(None, "end", &[]));
+        }
+        1 => {
+            ls.push(line(None, "if", &[s("false")]));
+            ls.push(line(Some("b"), "set", &[s("first")]));
+            ls.push(line(None, "elseif", &call));
+            ls.push(line(Some("b"), "set", &[s("then")]));
+            ls.push(line(None, "else", &[]));
+            ls.push(line(Some("b"), "set", &[s("else")]));
+            ls.push(line(None, "end", &[]));
+        }
+        2 => {
+            ls.push(line(Some("n"), "not", &call));
+        }
+        3 => {
+            // the body makes the predicate falsy for the next test
+            ls.push(line(Some("b"), "set", &[s("else")]));
+            ls.push(line(None, "while", &call));
+            ls.push(line(Some("b"), "set", &[s("then")]));
+            ls.push(line(Some("o"), "set", &[s("false")]));
+            ls.push(line(Some("r"), "set", &[s("false")]));
+            ls.push(line(None, "end", &[]));
+        }
+        _ => {
+            // two-level: the predicate is called by another function used as the condition
+            ls.insert(0, line(None, "end", &[]));
+            ls.insert(0, line(None, "return", &[s("${t}")]));
+            ls.insert(0, line(Some("t"), "p", &[s("x"), s("y z")]));
+            ls.insert(0, line(None, "fn", &[s("outer")]));
+            ls.push(line(None, "if", &[s("outer")]));
+            ls.push(line(Some("b"), "set", &[s("then")]));
+            ls.push(line(None, "else", &[]));
+            ls.push(line(Some("b"), "set", &[s("else")]));
+            ls.push(line(None, "end", &[]));
+        }
+    }
+    let mut toks = vec![format!("B{}", ls.len())];
+    for l in ls {
+        toks.extend(l);
+    }
+    let o = rng.pick_s(&OUTS);
+    let r = rng.pick_s(&OUTS);
+    let vars = format!("{}={},{}={}", enc_str("o"), enc_str(o), enc_str("r"), enc_str(r));
+    Case { req: format!("c04raw {} {} 600", toks.join(";"), vars), in_domain: true, nontrivial: true, tags: vec!["branch", ["fall-off-end", "bare-return", "return-value"][ending], ["if", "elseif", "not", "while", "if-two-level"][wrapper]] }
+}
+
+fn truthy(v: Option<&String>) -> bool {
+    match v {
+        None => false,
+        Some(t) => {
+            let l = t.to_lowercase();
+            !(l.is_empty() || l == "0" || l == "false" || l == "no")
+        }
+    }
+}
+
+/// model-independent: the branch recorded in `b` / the value of `n` is the one the DIRECT call's
+/// output `d` determines
+fn branch_relation(imp: &str) -> Option<bool> {
+    let out = imp.split(' ').nth(1)?;
+    let rest = out.strip_prefix("M:ok_VARS_")?;
+    let vars_tok = rest.split("_EMIT_").next()?;
+    let vars: std::collections::HashMap<String, String> = crate::scripted::dec_vars(vars_tok).into_iter().collect();
+    let d = truthy(vars.get("d"));
+    if let Some(n) = vars.get("n") {
+        return Some((n == "true") == !d);
+    }
+    match vars.get("b").map(|s| s.as_str()) {
+        Some("then") => Some(d),
+        Some("else") => Some(!d),
+        _ => Some(false),
     }
 }
